@@ -497,7 +497,7 @@ class AdvancedTag(object):
                 # Create a copy of the old text in this block for return
                 removedBlock = block[:]
                 # Remove first occurance of #text from matched block
-                blocks[i] = block.replace(text, '')
+                blocks[i] = block.replace(text, '', 1)
                 break # remove should only remove FIRST occurace, per other methods
 
         # Regenerate the "text" property
